@@ -253,6 +253,22 @@ func checkC05(p *ana.Prog, r *ana.Result) {
 	c05Meta(p, r)
 	c05Timestamps(p, r)
 	c05NTS(p, r)
+	// only fields in front of the authenticator are covered by the AEAD: the decoder must stop there,
+	// otherwise an appended, unauthenticated Unique Identifier field replaces the authenticated one
+	// and a replayed response passes the identifier comparison (shared with C10)
+	{
+		n0 := len(r.Obls)
+		c10Coverage(p, r)
+		kept := r.Obls[:n0]
+		for _, o := range r.Obls[n0:] {
+			if strings.Contains(o.Key, "stop-at-authenticator") {
+				o.Rule = "C05.authenticated-fields"
+				o.Key = strings.Replace(o.Key, "C10.coverage", "C05.authenticated-fields", 1)
+				kept = append(kept, o)
+			}
+		}
+		r.Obls = kept
+	}
 	n := 0
 	for _, o := range r.Obls {
 		if o.Rule == "C05.accept" {
@@ -484,12 +500,13 @@ func c05ScionGates(p *ana.Prog, r *ana.Result, fn *ssa.Function) []gateSpec {
 		return false, false
 	}))})
 	// last layer != SCMP
-	gs = append(gs, gateSpec{name: "last-layer-not-SCMP", gate: ana.FindGate(p, fn, "last-layer-not-SCMP", func(c ana.Cmp, isCmp bool, _ ssa.Value) (bool, bool) {
+	// (the edge `last layer == SCION/UDP` establishes it as well: the two layer types are distinct)
+	gs = append(gs, gateSpec{name: "last-layer-not-SCMP", gate: ana.Union("last-layer-not-SCMP", ana.FindGate(p, fn, "last-layer-not-SCMP", func(c ana.Cmp, isCmp bool, _ ssa.Value) (bool, bool) {
 		if !isCmp || !layerCmp(c, "LayerTypeSCMP") {
 			return false, false
 		}
 		return true, c.Op == token.NEQ
-	})})
+	}), layerIs("LayerTypeSCIONUDP"))})
 	// len(buf) >= int(udpLayer.Length)
 	gs = append(gs, gateSpec{name: "len(buf)>=udp.Length", gate: ana.FindGate(p, fn, "len>=udpLength", func(c ana.Cmp, isCmp bool, _ ssa.Value) (bool, bool) {
 		if !isCmp {
